@@ -220,3 +220,45 @@ def run(ctx):
 
     for construct, ok, msg, rel_, line in merge_purity_obligations(repo):
         r4.check(ok, construct, msg, rel_, line)
+
+    # ---- C18.5 every way of calling a task hands the exported option names to the expression ------
+    # TaskExpression / SchedulerExpression hash `export_options`.  Task.__call__ passes them; a sibling __call__ that does not makes
+    # `t.export_options(k=v)(..)` indistinguishable from `t.options(k=v)(..)`.
+    r5 = ctx.rule("C18.5", "every Task.__call__ variant passes task_options and export_options to the expression it builds", floor=2)
+    tm5 = repo.mod("redun/task.py")
+    ncall5 = 0
+    for cm5, c5 in repo.subclasses(tm5.cls("Task")):
+        callm = next((st for st in c5.body if isinstance(st, ast.FunctionDef) and st.name == "__call__"), None)
+        if callm is None:
+            continue
+        for c in calls_in(callm):
+            cn = (call_name(c) or "").split(".")[-1]
+            if cn.endswith("Expression") and any(k.arg == "task_options" for k in c.keywords):
+                ncall5 += 1
+                r5.check(
+                    any(k.arg == "export_options" and src(k.value) == "self._export_options" for k in c.keywords),
+                    f"{cm5.rel}:{c5.name}.__call__:{cn}:export_options",
+                    f"{c5.name}.__call__ builds a {cn} with task_options but without export_options=self._export_options: `{c5.name.lower()}.export_options(k=v)(...)` gets an empty exported-name set and "
+                    "the same hash as `.options(k=v)(...)`, so the two calls are merged when reached from the same job",
+                    cm5.rel,
+                    c.lineno,
+                )
+    if ncall5 < 2:
+        raise AnalysisError(f"only {ncall5} expression constructions found in Task.__call__ variants", "Task.__call__")
+
+    # ---- C18.6 unpickling a partial keeps the class of the task it wraps ------------------------
+    r6 = ctx.rule("C18.6", "PartialTask.__setstate__ does not rebuild the wrapped task as a hard-coded base class", floor=1)
+    ps6 = tm5.func("PartialTask.__setstate__")
+    news6 = [c for c in calls_in(ps6) if isinstance(c.func, ast.Attribute) and c.func.attr == "__new__"]
+    if not news6:
+        raise AnalysisError("PartialTask.__setstate__: construction of the inner task not found", "PartialTask.__setstate__")
+    for c in news6:
+        hard = isinstance(c.func.value, ast.Name) and c.func.value.id in tm5.classes
+        r6.check(
+            not hard,
+            f"{tm5.rel}:PartialTask.__setstate__:inner-class",
+            f"`{src(c)}` rebuilds the wrapped task as a plain {src(c.func.value)} whatever it was: after a pickle round trip `cond.partial(True)(1, 2)` builds a TaskExpression instead of a "
+            "SchedulerExpression -- a different expression kind with a different hash (and it fails when run)",
+            tm5.rel,
+            c.lineno,
+        )
